@@ -79,8 +79,10 @@ func (c *Controller) handleEvent(evt config.Event) {
 	case *config.SvcConfigEvent:
 		c.handleSvcConfigUpdate(evt.Name, evt.Config)
 	case *config.SvcEndpointEvent:
-		c.handleSvcEndpointsAdd(evt.Name, evt.Added)
+		// apply removals first, as the config store does: an endpoint listed
+		// in both Removed and Added must end up present.
 		c.handleSvcEndpointsRemove(evt.Name, evt.Removed)
+		c.handleSvcEndpointsAdd(evt.Name, evt.Added)
 	default:
 		logger.Warnf("unkown event: %v", evt)
 	}
